@@ -1,4 +1,7 @@
 import PewProofs.Filters
+import PewProofs.FiltersFloat
+import PewProofs.FiltersArith
+import PewProofs.FiltersPads
 
 /-! # C13 — property theorems (statements only depend on `PewModel.Filters`) -/
 namespace Pew.Filters
@@ -375,5 +378,255 @@ theorem constant_unchanged2 (h0 h1 n1 : Nat) (t : Option Rat) (x : List (List Ra
   exact ⟨fin _ l1 r1 (fun i j hi hj => (key i j hi hj).1), fin _ l2 r2 (fun i j hi hj => (key i j hi hj).2)⟩
 
 example : ∀ r ∈ ([[4, 4, 4], [4, 4, 4], [4, 4, 4]] : List (List Rat)), ∀ v ∈ r, v = 4 := by decide
+
+/-! ## the two "comes back unchanged" clauses as the one condition the check evaluates -/
+
+/-- 1-D: a constant signal, or an infinite threshold: both filters return the input, every pixel of it. -/
+theorem unchanged_clause1 (h : Nat) (t : Option Rat) (x : List Rat) (h1 : 1 ≤ h)
+    (hu : mustBeUnchanged t x = true) :
+    rollingMean1 (2 * h + 1) t x = x ∧ rollingMedian1 (2 * h + 1) t x = x := by
+  cases t with
+  | none => exact inf_threshold_unchanged1 h x
+  | some t =>
+    simp only [mustBeUnchanged, Option.isNone_some, Bool.false_or] at hu
+    exact constant_unchanged1 h (some t) x (x.headD 0) h1 (allEq_spec x hu)
+
+example : mustBeUnchanged (some 0) [1 / 3, 1 / 3, 1 / 3, 1 / 3] = true ∧ mustBeUnchanged none [1, 2, 7] = true := by
+  decide +kernel
+
+/-- 2-D (the image given by its rows, the condition evaluated on the row-major pixel list). -/
+theorem unchanged_clause2 (h0 h1 n1 : Nat) (t : Option Rat) (x : List (List Rat))
+    (hrect : ∀ r ∈ x, r.length = n1) (hh0 : 1 ≤ h0) (hu : mustBeUnchanged t x.flatten = true) :
+    rollingMean2 (2 * h0 + 1) (2 * h1 + 1) t x = x ∧ rollingMedian2 (2 * h0 + 1) (2 * h1 + 1) t x = x := by
+  cases t with
+  | none =>
+    exact ⟨inf_threshold_unchanged2_mean h0 h1 n1 x hrect, inf_threshold_unchanged2_median h0 h1 n1 x hrect⟩
+  | some t =>
+    simp only [mustBeUnchanged, Option.isNone_some, Bool.false_or] at hu
+    refine constant_unchanged2 h0 h1 n1 (some t) x (x.flatten.headD 0) hrect hh0 ?_
+    intro r hr v hv
+    exact allEq_spec _ hu v (List.mem_flatten.mpr ⟨r, hr, hv⟩)
+
+example : mustBeUnchanged (some 3) ([[1 / 10, 1 / 10, 1 / 10], [1 / 10, 1 / 10, 1 / 10]] : List (List Rat)).flatten = true := by
+  decide +kernel
+
+/-! ## interior pixels do not depend on how the border is padded
+
+`np.pad` rounds the pad values of an integer image to integers (half to even) before the windows are
+cut; the model's `meanCellsP*` / `medianCellsP*` take the pad statistic as a parameter (`π = rint ∘ mean`
+for integer images; `meanCells*` / `medianCells*` are the instances with the exact statistic).  Whatever
+the pad statistic, the cell of an interior pixel is the cell of the definition. -/
+
+theorem cells_are_P (b b0 b1 : Nat) (x : List Rat) (y : List (List Rat)) :
+    meanCells1 b x = meanCellsP1 mean b x ∧ meanCells2 b0 b1 y = meanCellsP2 mean b0 b1 y ∧
+    medianCells1 b x = medianCellsP1 median median b x ∧
+    medianCells2 b0 b1 y = medianCellsP2 median median b0 b1 y := ⟨rfl, rfl, rfl, rfl⟩
+
+theorem interior_any_pad_mean1 (π : List Rat → Rat) (h : Nat) (x : List Rat) (i : Nat)
+    (hi : h ≤ i) (hn : i + h < x.length) :
+    (meanCellsP1 π (2 * h + 1) x)[i]? = some (specMeanCell1 h x i) := by
+  have hlt : i < x.length := by omega
+  have hw : slice i (2 * h + 1) (pad1 π h x) = slice (i - h) (2 * h + 1) x :=
+    slice_padEnds_interior h (2 * h + 1) i _ _ x hi (by omega)
+  unfold meanCellsP1
+  rw [getElem?_cellsG1 π _ h x i hlt, hw, half_odd, slice_centre h i x hi hlt,
+    eraseIdx_centre _ _ _ h (slice_length_of_le _ _ _ (by omega))]
+  simp [specMeanCell1, meanCell, at1_eq x i hlt]
+
+/-- pixel 2 of a six-sample integer signal, window 5 -/
+example : (2 : Nat) ≤ 2 ∧ 2 + 2 < ([1, 2, 4, 7, 5, 3] : List Rat).length := by decide
+
+theorem interior_any_pad_mean2 (π : List Rat → Rat) (h0 h1 n1 : Nat) (x : List (List Rat)) (i j : Nat)
+    (hrect : ∀ r ∈ x, r.length = n1)
+    (hi : h0 ≤ i) (hn : i + h0 < x.length) (hj : h1 ≤ j) (hm : j + h1 < n1) :
+    ((meanCellsP2 π (2 * h0 + 1) (2 * h1 + 1) x)[i]?).bind (fun r => r[j]?)
+      = some (specMeanCell2 h0 h1 x i j) := by
+  unfold meanCellsP2
+  rw [getElem?_cellsG2 π _ h0 h1 n1 x hrect i j (by omega) (by omega), half_odd, half_odd,
+    window2_interior π h0 h1 i j n1 x hrect hi hn hj hm,
+    maskCentre2_interior h0 h1 i j n1 x hrect hi hn hj hm]
+  rfl
+
+/-- pixel (1, 2) of a 3×5 image, window 3×5 -/
+example : (∀ r ∈ ([[1, 2, 3, 4, 5], [6, 7, 8, 9, 10], [11, 12, 13, 14, 15]] : List (List Rat)), r.length = 5) ∧
+    (1 : Nat) ≤ 1 ∧ 1 + 1 < 3 ∧ (2 : Nat) ≤ 2 ∧ 2 + 2 < 5 := by decide
+
+/-- the rounded pad of an integer image: the window of pixel 1 of `[1, 2, 4, 7, 5, 3]` (window 5) starts
+with the pad value `rint (3/2) = 2`, the exact model has `3/2` there; pixel 2 sees neither -/
+example : (slice 1 5 (pad1 (fun l => rint (mean l)) 2 [1, 2, 4, 7, 5, 3])).head? = some 2 ∧
+    (slice 1 5 (pad1 mean 2 [1, 2, 4, 7, 5, 3])).head? = some (3 / 2) ∧
+    rint (5 / 2) = 2 ∧ rint (7 / 2) = 4 ∧ rint (-5 / 2) = -2 := by decide +kernel
+
+theorem interior_any_pad_median1 (π1 π2 : List Rat → Rat) (h : Nat) (x : List Rat) (i : Nat)
+    (hi : 2 * h ≤ i) (hn : i + 2 * h < x.length) :
+    (medianCellsP1 π1 π2 (2 * h + 1) x)[i]? = some (specMedianCell1 h x i) :=
+  medianCellsP1_interior π1 π2 h i x hi hn
+
+theorem interior_any_pad_median2 (π1 π2 : List Rat → Rat) (h0 h1 n1 : Nat) (x : List (List Rat)) (i j : Nat)
+    (hrect : ∀ r ∈ x, r.length = n1)
+    (hi : 2 * h0 ≤ i) (hn : i + 2 * h0 < x.length) (hj : 2 * h1 ≤ j) (hm : j + 2 * h1 < n1) :
+    ((medianCellsP2 π1 π2 (2 * h0 + 1) (2 * h1 + 1) x)[i]?).bind (fun r => r[j]?)
+      = some (specMedianCell2 h0 h1 x i j) :=
+  medianCellsP2_interior π1 π2 h0 h1 i j n1 x hrect hi hn hj hm
+
+example : 2 * 1 ≤ 2 ∧ 2 + 2 * 1 < ([3, 1, 4, 1, 5] : List Rat).length := by decide
+example : 2 * 1 ≤ 2 ∧ 2 + 2 * 1 < 5 ∧ 2 * 2 ≤ 4 ∧ 4 + 2 * 2 < 9 := by decide
+
+/-! ## the constant clause for every arithmetic
+
+`constant_unchanged*` is about exact arithmetic.  What survives in any arithmetic: the mean filter is
+an instance of `rollingG*` (pad statistic, masked mean and outlier decision left open), and `rollingG*`
+returns a constant image unchanged as soon as pad statistic and masked mean return `c` for up to
+`b0·b1` copies of `c` — whatever the outlier decision, hence for every threshold and every way of
+computing window mean and spread. -/
+
+theorem rollingMean1_is_G (b : Nat) (t : Option Rat) (x : List Rat) :
+    rollingMean1 b t x
+      = rollingG1 mean mean (fun xi w => (meanCell xi w (w.eraseIdx (b / 2))).outlierSq t) b x := by
+  unfold rollingMean1 meanCells1 rollingG1 cellsG1
+  rw [List.map_zipWith]
+  rfl
+
+theorem rollingMean2_is_G (b0 b1 : Nat) (t : Option Rat) (x : List (List Rat)) :
+    rollingMean2 b0 b1 t x
+      = rollingG2 mean mean
+          (fun xi w => (meanCell xi w.flatten (maskCentre2 (b0 / 2) (b1 / 2) w)).outlierSq t) b0 b1 x := by
+  unfold rollingMean2 meanCells2 rollingG2 cellsG2
+  rw [List.map_zipWith]
+  congr 1
+  funext row wrow
+  rw [List.map_zipWith]
+  rfl
+
+/-- 1-D.  `N` bounds the number of copies the two statistics must get right; a window has `2h+1`. -/
+theorem constant_unchanged_any_arithmetic1 (π μm : List Rat → Rat) (dec : Rat → List Rat → Bool)
+    (N h : Nat) (x : List Rat) (c : Rat) (h1 : 1 ≤ h) (hN : 2 * h + 1 ≤ N)
+    (hπ : ∀ l : List Rat, l ≠ [] → l.length ≤ N → (∀ v ∈ l, v = c) → π l = c)
+    (hμ : ∀ l : List Rat, l ≠ [] → l.length ≤ N → (∀ v ∈ l, v = c) → μm l = c)
+    (hc : ∀ v ∈ x, v = c) : rollingG1 π μm dec (2 * h + 1) x = x :=
+  rollingG1_const π μm dec N h x c h1 hN hπ hμ hc
+
+/-- the exact mean is such a statistic (so `constant_unchanged1` for the mean filter is the instance
+`π = μm = mean`), for every `N` -/
+example (N : Nat) (c : Rat) : ∀ l : List Rat, l ≠ [] → l.length ≤ N → (∀ v ∈ l, v = c) → mean l = c :=
+  fun l hne _ h => mean_const l c hne h
+
+/-- 2-D; `1 ≤ n1`: the image has at least one column (the quantifier grants a whole window). -/
+theorem constant_unchanged_any_arithmetic2 (π μm : List Rat → Rat) (dec : Rat → List (List Rat) → Bool)
+    (N h0 h1 n1 : Nat) (x : List (List Rat)) (c : Rat) (hrect : ∀ r ∈ x, r.length = n1) (hh0 : 1 ≤ h0)
+    (hn1 : 1 ≤ n1) (hN : (2 * h0 + 1) * (2 * h1 + 1) ≤ N)
+    (hπ : ∀ l : List Rat, l ≠ [] → l.length ≤ N → (∀ v ∈ l, v = c) → π l = c)
+    (hμ : ∀ l : List Rat, l ≠ [] → l.length ≤ N → (∀ v ∈ l, v = c) → μm l = c)
+    (hc : ∀ r ∈ x, ∀ v ∈ r, v = c) : rollingG2 π μm dec (2 * h0 + 1) (2 * h1 + 1) x = x :=
+  rollingG2_const π μm dec N h0 h1 n1 x c hrect hh0 hn1 hN hπ hμ hc
+
+/-- a 3×5 window on a 4×6 image of 1/3, statistics required to be right for up to 15 copies -/
+example : (∀ r ∈ (List.replicate 4 (List.replicate 6 (1 / 3)) : List (List Rat)), r.length = 6) ∧
+    (2 * 1 + 1) * (2 * 2 + 1) ≤ 15 ∧ (∀ r ∈ (List.replicate 4 (List.replicate 6 (1 / 3)) : List (List Rat)), ∀ v ∈ r, v = 1 / 3) := by
+  refine ⟨?_, by decide, ?_⟩
+  · intro r hr; rw [List.eq_of_mem_replicate hr]; simp
+  · intro r hr v hv; rw [List.eq_of_mem_replicate hr] at hv; exact List.eq_of_mem_replicate hv
+
+/-- Rounded arithmetic, 1-D.  `fl` any rounding function that returns the numbers of the binary format
+(`p` significand bits, least exponent `emin`) unchanged; means are computed left to right with every
+addition and the division rounded (`flMean fl`); `dec` any outlier decision.  If all partial sums `j·c`,
+`j ≤ 2h+1`, are numbers of the format, the constant signal `c` comes back unchanged. -/
+theorem constant_unchanged_rounded1 (fl : Rat → Rat) (p : Nat) (emin : Int) (dec : Rat → List Rat → Bool)
+    (h : Nat) (x : List Rat) (c : Rat) (h1 : 1 ≤ h) (hfl : ∀ q, isBin p emin q = true → fl q = q)
+    (hs : sumsExact p emin (2 * h + 1) c = true) (hc : ∀ v ∈ x, v = c) :
+    rollingG1 (flMean fl) (flMean fl) dec (2 * h + 1) x = x :=
+  rollingG1_const _ _ dec (2 * h + 1) h x c h1 (le_refl _)
+    (flMean_fixesConst fl p emin _ c hfl hs) (flMean_fixesConst fl p emin _ c hfl hs) hc
+
+/-- binary64, window 7: `5/4` qualifies, `1/10` (as the double nearest to it) does not -/
+example : sumsExact 53 (-1074) (2 * 3 + 1) (5 / 4) = true ∧
+    sumsExact 53 (-1074) (2 * 3 + 1) (3602879701896397 / 36028797018963968) = false := by decide +kernel
+
+/-- Rounded arithmetic, 2-D, partial sums up to `(2h0+1)(2h1+1)` copies. -/
+theorem constant_unchanged_rounded2 (fl : Rat → Rat) (p : Nat) (emin : Int)
+    (dec : Rat → List (List Rat) → Bool) (h0 h1 n1 : Nat) (x : List (List Rat)) (c : Rat)
+    (hrect : ∀ r ∈ x, r.length = n1) (hh0 : 1 ≤ h0) (hn1 : 1 ≤ n1)
+    (hfl : ∀ q, isBin p emin q = true → fl q = q)
+    (hs : sumsExact p emin ((2 * h0 + 1) * (2 * h1 + 1)) c = true) (hc : ∀ r ∈ x, ∀ v ∈ r, v = c) :
+    rollingG2 (flMean fl) (flMean fl) dec (2 * h0 + 1) (2 * h1 + 1) x = x :=
+  rollingG2_const _ _ dec _ h0 h1 n1 x c hrect hh0 hn1 (le_refl _)
+    (flMean_fixesConst fl p emin _ c hfl hs) (flMean_fixesConst fl p emin _ c hfl hs) hc
+
+/-- hypotheses met: binary64, a 7×7 window, `c = 5/4`; a crude rounding that is exact on the format -/
+example : sumsExact 53 (-1074) ((2 * 3 + 1) * (2 * 3 + 1)) (5 / 4) = true ∧
+    (∀ q, isBin 53 (-1074) q = true → (fun q => if isBin 53 (-1074) q then q else 0) q = q) := by
+  refine ⟨by decide +kernel, fun q hq => by simp [hq]⟩
+
+/-! ## float level: why a constant image of a non-dyadic value does not come back bit for bit
+
+The theorems above are about exact arithmetic.  pewlib computes in binary floating point, where the
+mean of `n` copies of `c` need not be `c`.  Two statements about every rounded evaluation (any order
+of summation; `fl` is the rounding function) and kernel-evaluated witnesses for binary64. -/
+
+/-- Bound.  Under the standard model of floating-point arithmetic with unit roundoff `u`, whatever a
+rounded evaluation makes of a window mean of a constant image (weight 1: pads, window mean, masked
+window mean; depth at most `E` roundings) is within `((1+u)^E − 1)·|c|` of `c`.  The correspondence
+check accepts a changed constant image as the known finding only inside this bound
+(`E = h0 + h1 + b0·b1`, `u = 2⁻⁵³`). -/
+theorem rounded_mean_of_constant_within_bound (fl : Rat → Rat) (u c : Rat) (hu : 0 ≤ u)
+    (hfl : ∀ x, |fl x - x| ≤ u * |x|) (e : FExpr) (E : Nat) (hw : e.weight = 1) (hd : e.depth ≤ E) :
+    |e.eval fl c - c| ≤ constBound u E c := by
+  have h := FExpr.eval_bound fl u c hu hfl e
+  rw [hw, one_mul, one_mul] at h
+  unfold constBound
+  rw [absR_eq_abs]
+  exact h.trans (mul_le_mul_of_nonneg_right (FExpr.pow_sub_one_mono u hu hd) (abs_nonneg c))
+
+/-- the hypotheses are met by a rounding that really errs (it inflates every value by `u`), the mean of
+seven copies added left to right and the bound the check uses for a 1-D window of 7 -/
+example : (∀ x : Rat, |(x + (1 / 2 ^ 53) * x) - x| ≤ (1 / 2 ^ 53) * |x|) ∧
+    (FExpr.divn (FExpr.seqSum 7) 7).weight = 1 ∧ (FExpr.divn (FExpr.seqSum 7) 7).depth ≤ 3 + 7 := by
+  refine ⟨fun x => ?_, by decide +kernel, by decide⟩
+  have : x + (1 / 2 ^ 53) * x - x = (1 / 2 ^ 53) * x := by ring
+  rw [this, abs_mul, abs_of_pos (by positivity)]
+
+/-- Exactness.  A rounding function that leaves the numbers of the format alone returns `c` for every
+window mean of a constant image whose partial sums `j·c`, `j ≤ N`, are all numbers of the format
+(dyadic constants of few bits): such an image must come back bit for bit also from a float
+implementation, at every threshold.  The check demands exactly that (`sums_exact` of `c13.constinfo`). -/
+theorem rounded_mean_of_constant_exact (fl : Rat → Rat) (p : Nat) (emin : Int) (N : Nat) (c : Rat)
+    (hfl : ∀ q, isBin p emin q = true → fl q = q) (hs : sumsExact p emin N c = true)
+    (e : FExpr) (he : e.wf N = true) (hw : e.weight = 1) : e.eval fl c = c := by
+  rw [FExpr.eval_exact fl p emin N c hfl hs e he, hw, one_mul]
+
+/-- met by `c = 5/4`, windows of up to 49 values, binary64; `1/10` is not such a constant -/
+example : sumsExact 53 (-1074) 49 (5 / 4) = true ∧ (FExpr.divn (FExpr.seqSum 7) 7).wf 49 = true ∧
+    sumsExact 53 (-1074) 49 (1 / 10) = false ∧ isBin 53 (-1074) (3602879701896397 / 36028797018963968) = true := by
+  decide +kernel
+
+/-- Witness (binary64, NumPy's order of evaluation, evaluated by the kernel): the mean filter with
+window 7 and threshold 0 returns fifteen copies of `0.1` (`0x3FB999999999999A`) as fifteen copies of
+`0.10000000000000002` — every pixel one unit in the last place up.  Known finding
+`C13-constant-image-rounding`; pewlib returns these very bits (targeted case `witness`). -/
+theorem f64_mean_changes_constant :
+    F64.bits (List.replicate 15 0.1) = List.replicate 15 0x3FB999999999999A ∧
+    F64.bits (F64.rollingMean1 7 0.0 (List.replicate 15 0.1)) = List.replicate 15 0x3FB999999999999B := by
+  decide +kernel
+
+/-- the same signal: threshold 1 changes the three pixels at either end (their windows hold pad values,
+themselves rounded means), an infinite threshold changes nothing, the median filter changes nothing,
+and windows 3 and 5 change nothing (their masked sums `2c`, `4c` are exact) -/
+theorem f64_same_signal_otherwise :
+    F64.bits (F64.rollingMean1 7 1.0 (List.replicate 15 0.1))
+      = List.replicate 3 0x3FB999999999999B ++ List.replicate 9 0x3FB999999999999A ++ List.replicate 3 0x3FB999999999999B ∧
+    F64.bits (F64.rollingMean1 7 (1.0 / 0.0) (List.replicate 15 0.1)) = F64.bits (List.replicate 15 0.1) ∧
+    F64.bits (F64.rollingMedian1 7 0.0 (List.replicate 15 0.1)) = F64.bits (List.replicate 15 0.1) ∧
+    F64.bits (F64.rollingMean1 3 0.0 (List.replicate 15 0.1)) = F64.bits (List.replicate 15 0.1) ∧
+    F64.bits (F64.rollingMean1 5 0.0 (List.replicate 15 0.1)) = F64.bits (List.replicate 15 0.1) := by
+  decide +kernel
+
+/-- an interior pixel of `rolling_mean(np.full((15, 15), 1/3), (7, 7), threshold=0)`: the window mean of
+49 copies is not `1/3`, so the pixel counts as an outlier at threshold 0, and the mean of the other 48
+copies is one unit in the last place below `1/3` -/
+theorem f64_mean_changes_constant_2d :
+    let c : Float := 1.0 / 3.0
+    let cell := F64.meanCell c 3 3 (List.replicate 7 (List.replicate 7 c))
+    c.toBits = 0x3FD5555555555555 ∧ cell.m.toBits ≠ c.toBits ∧ (cell.out 0.0).toBits = 0x3FD5555555555554 := by
+  decide +kernel
 
 end Pew.Filters
